@@ -40,7 +40,7 @@ impl Check for C02 {
         let mut fs = FaultStats::default();
         let mut doc = cases::doc_opts_for(tier, &mut rng);
         doc.noncanonical_pct = *rng.pick(&[0u64, 40, 80]);
-        doc.pay.max_len = doc.pay.max_len.min(16385);
+        doc.pay.max_len = doc.pay.max_len.min(70_000);
         let via_writer = rng.chance(1, 4);
         let (bytes, class) = if via_writer {
             // writer output of a C01-style case
